@@ -237,18 +237,22 @@ def shouldAbsorb (s : State) (newKey : Key) : Bool :=
   | some t => t != newKey
   | none => true
 
-/-- `add_new_mapping`, first part: the `retain` over the pass-through keys. -/
+/-- `consume_pass_through_keys` (the `retain` over the pass-through keys): called at the top of
+`add_new_mapping` and, since the fix of finding D5, once more right after `release_absorbed_keys`. -/
 def addPhase1 (s : State) (m : Mapping) : State × List Event :=
   let c := consume m s.pass
   ({ s with pass := c.1, mapped := s.mapped ++ c.2.1 }, c.2.2)
 
-/-- `add_new_mapping`, second part: the `if is_action_mapping(m) { … }` block. -/
+/-- `add_new_mapping`, second part: the `if is_action_mapping(m) { … }` block (with the fix of D5: the
+second `consume_pass_through_keys` inside `if should_absorb { … }`). -/
 def addPhase2 (s : State) (newKey : Key) (m : Mapping) : State × List Event :=
   if isActionMapping m then
     let r1 := releaseActionMappings s
     if shouldAbsorb r1.1 newKey then
       let r2 := releaseAbsorbedKeys r1.1
-      (r2.1, r1.2 ++ r2.2)
+      -- fix of D5: `release_absorbed_keys` can hand keys back to pass-through; consume again
+      let r3 := addPhase1 r2.1 m
+      (r3.1, r1.2 ++ r2.2 ++ r3.2)
     else r1
   else (s, [])
 
